@@ -458,7 +458,7 @@ Definition nonzero (x : option Z) : option Z :=
   match x with Some n => if n =? 0 then None else Some n | None => None end.
 
 (* Fill.push_to_cells of every cell: transform by old number, then universe by old number;
-   a missing number is a bare KeyError *)
+   a missing number is a BrokenObjectLinkError (e934d91) *)
 Fixpoint fill_push (g : st) (cs : list oid) : st * res :=
   match cs with
   | [] => (g, ROk)
@@ -470,13 +470,13 @@ Fixpoint fill_push (g : st) (cs : list oid) : st * res :=
         | Some n => match lookup g KTr n with Some t => Some (cr_ftr r (Some t)) | None => None end
         end in
       match step1 with
-      | None => (g, RErr KeyErr)
+      | None => (g, RErr BrokenLink)
       | Some r1 =>
           match c_oldfill r1 with
           | None => fill_push (set_cell g c r1) rest
           | Some n => match lookup g KUniv n with
                       | Some u => fill_push (set_cell g c (cr_fill r1 (Some u))) rest
-                      | None => (set_cell g c r1, RErr KeyErr)
+                      | None => (set_cell g c r1, RErr BrokenLink)
                       end
           end
       end
